@@ -186,6 +186,30 @@ fn contract_load_unauth<T: ?Sized + Read>(s: &mut EncryptionLayerInternal<T>) ->
         _ => Ok(None),
     }
 }
+/// unauthenticated-load contract over the seekable abstract stream (normal-reader harnesses: the
+/// normal reader must NEVER take this path — UNAUTH_LOADS is asserted to stay 0)
+fn contract_load_unauth_abs<T: ?Sized + Read + Seek>(s: &mut EncryptionLayerInternal<T>) -> Result<Option<()>, Error> {
+    let q = ok(s.inner.seek(SeekFrom::Current(0)));
+    let len = ok(s.inner.seek(SeekFrom::End(0)));
+    let post = load_spec_unauth(q, len);
+    ok(s.inner.seek(SeekFrom::Start(post.inner_pos)));
+    unsafe {
+        LOADS += 1;
+        UNAUTH_LOADS += 1;
+        LAST_LOAD_CHUNK = s.current_chunk_number;
+        LAST_LOAD_FROM = q;
+        CACHE_VERIFIED = false;
+    }
+    s.chunk_cache.get_mut().clear();
+    s.chunk_cache.set_position(0);
+    match post.ret {
+        LoadRet::Some => {
+            s.chunk_cache = Cursor::new(vec_of_len(post.cache_len));
+            Ok(Some(()))
+        }
+        _ => Ok(None),
+    }
+}
 /// same contract as `contract_load_auth` for the forward-only (fail-safe) source
 fn contract_load_auth_fs<T: ?Sized + Read>(s: &mut EncryptionLayerInternal<T>) -> Result<Option<()>, Error> {
     let (q, len) = unsafe { (FS_POS, FS_LEN) };
@@ -283,6 +307,7 @@ fn assert_positioned(l: &EncryptionLayerInternal<Abs>, n: u64, p: u64) {
     assert!(l.chunk_cache.get_ref().len() as u64 == chunk_plain_len(n, c), "cache holds exactly the target chunk");
     unsafe {
         assert!(LOADS >= 1 && u64::from(LAST_LOAD_CHUNK) == c && LAST_LOAD_FROM == c * SPEC_CTS, "target chunk (re)loaded and authenticated from its first byte");
+        assert!(UNAUTH_LOADS == 0, "the normal reader loaded a chunk without checking its tag");
     }
 }
 
@@ -359,6 +384,7 @@ fn any_wf_len() -> u64 {
 #[kani::stub(<std::io::Error as std::convert::From<crate::errors::Error>>::from, cheap_from)]
 #[kani::stub(crate::crypto::aesgcm::AesGcm256::new, stub_gcm_new)]
 #[kani::stub(EncryptionLayerInternal::load_in_cache, contract_load_auth)]
+#[kani::stub(EncryptionLayerInternal::load_in_cache_unauthenticated, contract_load_unauth_abs)]
 fn h_enc_seek_start() {
     let n = any_wf_len();
     let big_l = plain_len(n);
@@ -396,6 +422,7 @@ fn h_enc_seek_start() {
 #[kani::stub(<std::io::Error as std::convert::From<crate::errors::Error>>::from, cheap_from)]
 #[kani::stub(crate::crypto::aesgcm::AesGcm256::new, stub_gcm_new)]
 #[kani::stub(EncryptionLayerInternal::load_in_cache, contract_load_auth)]
+#[kani::stub(EncryptionLayerInternal::load_in_cache_unauthenticated, contract_load_unauth_abs)]
 fn h_enc_seek_end() {
     let n = any_wf_len();
     let big_l = plain_len(n);
@@ -441,6 +468,7 @@ fn positioned_internal(n: u64, c: u64) -> EncryptionLayerInternal<Abs> {
 #[kani::stub(<std::io::Error as std::convert::From<crate::errors::Error>>::from, cheap_from)]
 #[kani::stub(crate::crypto::aesgcm::AesGcm256::new, stub_gcm_new)]
 #[kani::stub(EncryptionLayerInternal::load_in_cache, contract_load_auth)]
+#[kani::stub(EncryptionLayerInternal::load_in_cache_unauthenticated, contract_load_unauth_abs)]
 fn h_enc_seek_current() {
     let n = any_wf_len();
     let big_l = plain_len(n);
@@ -589,7 +617,7 @@ fn h_enc_load_auth_refines() {
 //@ props: C01 C02 C03 C04 C06 C08 C10 C11 C13
 //@ scaled: yes
 //@ functions: layers::encrypt::EncryptionLayerInternal::load_in_cache (real body); layers::encrypt::build_nonce; subtle ct_eq on the 16-byte tag
-//@ bounds: SCALED build (feature mla_verif: chunk = 4 bytes, tag = 16 bytes unchanged); source whose FIRST read delivers at most 7 bytes (fewer than a tag, fewer than asked), later reads everything; inner length n <= 3*20+64, any start position q <= n (so every remaining length 0..=3 chunks incl. 1..15 bytes), any chunk counter, arbitrary previous cache
+//@ bounds: SCALED build (feature mla_verif: chunk = 4 bytes, tag = 16 bytes unchanged); source whose first and third reads deliver at most 7 bytes (fewer than a tag, fewer than asked); inner length n <= 3*20+64, any start position q <= n (so every remaining length 0..=3 chunks incl. 1..15 bytes), any chunk counter, arbitrary previous cache
 //@ stubs: AesGcm256::new -> same struct via model constructors + ghost log; AesGcm256::decrypt -> IDEAL MAC (tag matches iff chunk authentic); alloc::io::default_read_to_end -> exactly two reads into spare capacity; alloc::fmt::format; From<mla::Error> for io::Error
 //@ outside: that AES-GCM is a secure MAC
 //@ replay: verif_replay_encrypt::enc_load short=1 q:u64 n:u64 ccn:u32 auth:bool
@@ -685,7 +713,7 @@ fn h_enc_load_unauth_refines() {
 //@ props: C02 C04 C05 C13
 //@ scaled: yes
 //@ functions: layers::encrypt::EncryptionLayerInternal::load_in_cache_unauthenticated (real body); AesGcm256::decrypt_unauthenticated over the model keystream
-//@ bounds: SCALED build (chunk = 4 bytes, tag 16); source whose FIRST read delivers at most 7 bytes (fewer than a tag, fewer than asked), later reads everything; inner length n <= 3*20+64, any start q <= n (every remaining length incl. a cut inside data or inside a tag), any chunk counter, arbitrary previous cache
+//@ bounds: SCALED build (chunk = 4 bytes, tag 16); source whose first and third reads deliver at most 7 bytes (fewer than a tag, fewer than asked); inner length n <= 3*20+64, any start q <= n (every remaining length incl. a cut inside data or inside a tag), any chunk counter, arbitrary previous cache
 //@ stubs: AesGcm256::new -> same struct via model constructors + ghost log; alloc::io::default_read_to_end -> exactly two reads into spare capacity; std::io::copy -> single read + write_all; alloc::fmt::format; From<mla::Error> for io::Error
 //@ outside: -
 //@ replay: verif_replay_encrypt::enc_load_unauth short=1 q:u64 n:u64 ccn:u32
@@ -754,6 +782,7 @@ fn load_unauth_body(short: bool) {
 #[kani::stub(<std::io::Error as std::convert::From<crate::errors::Error>>::from, cheap_from)]
 #[kani::stub(crate::crypto::aesgcm::AesGcm256::new, stub_gcm_new)]
 #[kani::stub(EncryptionLayerInternal::load_in_cache, contract_load_auth)]
+#[kani::stub(EncryptionLayerInternal::load_in_cache_unauthenticated, contract_load_unauth_abs)]
 fn h_enc_read_step() {
     let n = any_wf_len();
     let big_l = plain_len(n);
@@ -779,6 +808,7 @@ fn h_enc_read_step() {
     let mut buf = [0u8; 8];
     let r = l.read_internal(&mut buf[..blen]);
     let in_chunk_left = core::cmp::min(SPEC_CHUNK - c % SPEC_CHUNK, big_l - c);
+    assert!(unsafe { UNAUTH_LOADS } == 0, "the normal reader loaded a chunk without checking its tag (whatever the repair-only option says)");
     match r {
         Ok(k) => {
             if needs_load && c < big_l {
@@ -1733,6 +1763,8 @@ fn writer_step_body(off: u64, blen: usize) {
     let prefix: [u8; NONCE_SIZE] = kani::any();
     let data: [u8; 6] = kani::any();
     let mut w = mk_writer(off, ctr, key, prefix, kani::any());
+    // the sink takes only ONE byte of the first write it sees: the layer must use write_all
+    unsafe { REC_FIRST_ACCEPT = 1 };
     kani::cover!(ctr > 0, "later chunk");
     kani::cover!(ctr == 0, "first chunk");
     let r = w.write(&data[..blen]);
